@@ -1106,7 +1106,7 @@ def _session3_lines(ctx, pairs, ns, shapes, rat):
         dx = DXS[(m + n) % len(DXS)]
         lines += [f'slices {m} {n} {rat(dx)}', f'support {m} {n} {rat(dx)}', f'dxdiam 3/1 {m} {n}']
         lines += [f'vec {m} {n} {k} {rat(dx)}' for k in {0, min(m, n) // 2, min(m, n) - 1}]
-    for c in range(0, 14):
+    for c in range(0, ctx.scale(14, 22)):
         lines += [f'autocrop {c} {px}' for px in range(1, 9)]
     for ln in range(1, ctx.scale(20, 40)):
         lines += [f'resample {ln} {z}' for z in ('2/1', '3/2', '1/2', '5/4', '3/4')]
